@@ -406,6 +406,160 @@ theorem kron_upwind_entry (P : Pb) (nf k : Nat) (f c a b : Nat) (hf : f < nf) (h
     rw [Nat.mul_comm, Nat.mul_add_div hk, Nat.div_eq_of_lt hb]; simp
   rw [e1, e2, e3, e4, upwindTrip_entry, if_pos hf]
 
+/-! ### interface coupling (`UpwindCoupling`) -/
+
+/-- Upstream selection on an interface: for positive mortar flux (from primary to secondary) the value
+    on the primary side (trace of the cell values at the matched face) is transported, otherwise —
+    including zero flux, as coded (`np.sign(lam) > 0`) — the value of the secondary cell. -/
+theorem coupling_selects_upstream (C : Cp) (ch cl : Nat → Rat) (m : Nat) :
+    (0 < C.lam m → upPrimDiag C m = 1 ∧ upSecDiag C m = 0 ∧
+      eta C ch cl m = C.lam m * traceVal C.Th ch (C.pf m)) ∧
+    (C.lam m ≤ 0 → upPrimDiag C m = 0 ∧ upSecDiag C m = 1 ∧
+      eta C ch cl m = C.lam m * cl (C.sc m)) := by
+  constructor
+  · intro h
+    have hf := (cplFlag_iff C m).mpr h
+    unfold upSecDiag upPrimDiag eta
+    simp [hf, h]
+  · intro h
+    have hf : cplFlag C m = false := by
+      cases hc : cplFlag C m
+      · rfl
+      · exact absurd ((cplFlag_iff C m).mp hc) (not_lt.mpr h)
+    unfold upSecDiag upPrimDiag eta
+    simp [hf, not_lt.mpr h]
+
+/-- On a fracture face of a well-formed primary grid (its only entry is `i`) the trace is the value of
+    the adjacent cell: the primary-side value is the value of the cell the mortar flux leaves. -/
+theorem traceVal_fracture_face (T : Topo) (hwf : WF T) (c : Nat → Rat) (i : Inc) (hi : i ∈ T)
+    (honly : ∀ j ∈ T, j.face = i.face → j = i) (hnd : T.Nodup) : traceVal T c i.face = c i.cell := by
+  unfold traceVal
+  have hu : absR i.sgn = 1 := by
+    rcases hwf.unit i hi with h | h <;> simp [h, absR]
+  induction T with
+  | nil => cases hi
+  | cons j T ih =>
+    rw [sumOver_cons]
+    have hnd' := List.nodup_cons.mp hnd
+    rcases List.mem_cons.mp hi with rfl | hi'
+    · have : sumOver T (fun j => if j.face = i.face then absR j.sgn * c j.cell else 0) = 0 := by
+        apply sumOver_eq_zero
+        intro j hj
+        by_cases hf : j.face = i.face
+        · have := honly j (List.mem_cons_of_mem _ hj) hf
+          exact absurd (this ▸ hj) hnd'.1
+        · simp [hf]
+      rw [this]; simp [hu]
+    · have hji : j ≠ i := fun e => hnd'.1 (e ▸ hi')
+      have hjf : ¬ j.face = i.face := fun hf => hji (honly j List.mem_cons_self hf)
+      rw [if_neg hjf, zero_add]
+      have hwf' : WF T := by
+        -- only the sign part of WF is used below; rebuild it for the tail
+        exact (by
+          unfold WF wfB
+          rw [List.all_eq_true]
+          intro k hk
+          have hk' := (List.all_eq_true.mp hwf) k (List.mem_cons_of_mem _ hk)
+          simp only [decide_eq_true_eq] at hk' ⊢
+          refine ⟨hk'.1, ?_, ?_⟩
+          · have := hk'.2.1; rw [cntPos_cons] at this; omega
+          · have := hk'.2.2; rw [cntNeg_cons] at this; omega)
+      exact ih hwf' hi' (fun k hk hf => honly k (List.mem_cons_of_mem _ hk) hf) hnd'.2
+
+/-- Row 2 of the assembled coupling blocks applied to the cell values of both sides is the upwinded
+    mortar flux `η` (`cc[2,0] c_h + cc[2,1] c_l − η = 0`). -/
+theorem coupling_row_matvec (C : Cp) (ch cl : Nat → Rat) (nch ncl m : Nat)
+    (hcell : ∀ i ∈ C.Th, i.cell < nch) (hsc : C.sc m < ncl) :
+    sumTo nch (fun c => cc20 C m c * ch c) + sumTo ncl (fun l => cc21 C m l * cl l) = eta C ch cl m := by
+  have e1 : sumTo nch (fun c => cc20 C m c * ch c)
+      = absR (C.lam m) * cplFluxDiag C m * upPrimDiag C m * traceVal C.Th ch (C.pf m) := by
+    unfold cc20
+    rw [← traceVal_eq_matvec C.Th ch (C.pf m) nch hcell, ← sumTo_mul_left]
+    exact sumTo_congr _ _ _ (fun c _ => by ring)
+  have e2 : sumTo ncl (fun l => cc21 C m l * cl l)
+      = absR (C.lam m) * cplFluxDiag C m * upSecDiag C m * cl (C.sc m) := by
+    unfold cc21
+    have e : ∀ l, absR (C.lam m) * cplFluxDiag C m * upSecDiag C m * (if C.sc m = l then 1 else 0) * cl l
+        = if C.sc m = l then absR (C.lam m) * cplFluxDiag C m * upSecDiag C m * cl l else 0 := by
+      intro l; by_cases h : C.sc m = l <;> simp [h]
+    rw [sumTo_congr ncl _ _ (fun l _ => e l), sumTo_ite_eq, if_pos hsc]
+  rw [e1, e2]
+  have hl : absR (C.lam m) * cplFluxDiag C m = C.lam m := absR_mul_sgnR (C.lam m)
+  rw [hl]
+  rcases lt_or_ge 0 (C.lam m) with h | h
+  · obtain ⟨a, b, c⟩ := (coupling_selects_upstream C ch cl m).1 h
+    rw [a, b, c]; ring
+  · obtain ⟨a, b, c⟩ := (coupling_selects_upstream C ch cl m).2 h
+    rw [a, b, c]; ring
+
+/-- Conservation across the interface: for ANY mortar fluxes `η`, what the blocks `cc[0,2]` take out of
+    the primary cells is what `cc[1,2]` puts into the secondary cells (every matched primary face is a
+    face with exactly one cell). -/
+theorem coupling_interface_conserves (C : Cp) (hwf : WF C.Th) (nm nch ncl : Nat) (η : Nat → Rat)
+    (hcell : ∀ i ∈ C.Th, i.cell < nch) (hsc : ∀ m, m < nm → C.sc m < ncl)
+    (hface : ∀ m, m < nm → cntPos C.Th (C.pf m) + cntNeg C.Th (C.pf m) = 1) :
+    sumTo nch (fun k => sumTo nm (fun m => cc02 C k m * η m))
+      + sumTo ncl (fun l => sumTo nm (fun m => cc12 C l m * η m)) = 0 := by
+  rw [sumTo_comm nch nm, sumTo_comm ncl nm, ← sumTo_add]
+  apply sumTo_eq_zero
+  intro m hm
+  have e1 : sumTo nch (fun k => cc02 C k m * η m) = η m := by
+    unfold cc02
+    rw [sumTo_mul_right, sum_traceW C.Th (C.pf m) nch hcell, faceWeight_eq_cnt C.Th (C.pf m) hwf.unit]
+    have : ((cntPos C.Th (C.pf m) : Rat) + (cntNeg C.Th (C.pf m) : Rat)) = 1 := by
+      have := hface m hm
+      exact_mod_cast this
+    rw [this, one_mul]
+  have e2 : sumTo ncl (fun l => cc12 C l m * η m) = -η m := by
+    unfold cc12
+    have e : ∀ l, (if C.sc m = l then (-1 : Rat) else 0) * η m = if C.sc m = l then -η m else 0 := by
+      intro l; by_cases h : C.sc m = l <;> simp [h]
+    rw [sumTo_congr ncl _ _ (fun l _ => e l), sumTo_ite_eq (C.sc m) ncl (fun _ => -η m), if_pos (hsc m hm)]
+  rw [e1, e2]; ring
+
+/-! ### mixed-dimensional transport -/
+
+/-- Explicit transport step on a mixed-dimensional grid (any graph of subdomains coupled by interfaces,
+    flattened to global indices): if every face is interior or a Neumann face with zero data (outer
+    no-flow boundary; fracture faces are Neumann faces, their flux is the mortar flux) and every mortar
+    cell is matched with a one-cell face and a cell, the total amount `Σ V c` over ALL subdomains is
+    unchanged — for any subdomain fluxes and any mortar fluxes (in particular divergence-free ones). -/
+theorem md_transport_conserves (M : Md) (hwf : WF M.P.T) (nf nc : Nat) (dt : Rat) (V bv c : Nat → Rat)
+    (hcell : ∀ i ∈ M.P.T, i.cell < nc) (hface : ∀ i ∈ M.P.T, i.face < nf)
+    (hV : ∀ i, i < nc → V i ≠ 0)
+    (hclosed : ∀ f, f < nf → Interior M.P.T f ∨ (M.P.isNeu f = true ∧ bv f = 0))
+    (hsc : ∀ m, m < M.nm → M.sc m < nc)
+    (hpf : ∀ m, m < M.nm → cntPos M.P.T (M.pf m) + cntNeg M.P.T (M.pf m) = 1) :
+    sumTo nc (fun i => V i * mdStep M dt V bv c i) = sumTo nc (fun i => V i * c i) := by
+  have e : ∀ i, i < nc → V i * mdStep M dt V bv c i
+      = V i * step M.P dt V bv c i - dt * intfOut M c i := by
+    intro i hi
+    unfold mdStep step
+    have := hV i hi
+    field_simp
+    ring
+  rw [sumTo_congr nc _ _ e, sumTo_sub, sumTo_mul_left,
+    transport_conserves M.P hwf nf nc dt V bv c hcell hface hV hclosed]
+  have : sumTo nc (intfOut M c) = 0 := by
+    unfold intfOut
+    rw [sumTo_add]
+    exact coupling_interface_conserves M.cp hwf M.nm nc nc (eta M.cp c c) hcell hsc hpf
+  rw [this]; ring
+
+theorem md_transport_conserves_iter (M : Md) (hwf : WF M.P.T) (nf nc : Nat) (dt : Rat) (V bv : Nat → Rat)
+    (hcell : ∀ i ∈ M.P.T, i.cell < nc) (hface : ∀ i ∈ M.P.T, i.face < nf)
+    (hV : ∀ i, i < nc → V i ≠ 0)
+    (hclosed : ∀ f, f < nf → Interior M.P.T f ∨ (M.P.isNeu f = true ∧ bv f = 0))
+    (hsc : ∀ m, m < M.nm → M.sc m < nc)
+    (hpf : ∀ m, m < M.nm → cntPos M.P.T (M.pf m) + cntNeg M.P.T (M.pf m) = 1)
+    (n : Nat) (c : Nat → Rat) :
+    sumTo nc (fun i => V i * mdIter M dt V bv n c i) = sumTo nc (fun i => V i * c i) := by
+  induction n generalizing c with
+  | zero => rfl
+  | succ n ih =>
+    show sumTo nc (fun i => V i * mdIter M dt V bv n (mdStep M dt V bv c) i) = _
+    rw [ih, md_transport_conserves M hwf nf nc dt V bv c hcell hface hV hclosed hsc hpf]
+
 /-! ### non-vacuity: concrete data
 
 `T3` = `CartGrid(3)` in 1-d (faces 0..3, cells 0..2, normals pointing right): the stored entries of
@@ -486,5 +640,49 @@ example : sumTo 3 (fun i => (i + 1 : Rat) * step Pneu (1 / 4) (fun i => (i + 1 :
     = sumTo 3 (fun i => (i + 1 : Rat) * cRing i) :=
   transport_conserves Pneu (by decide +kernel) 4 3 (1 / 4) (fun i => (i + 1 : Rat)) (fun _ => 0) cRing
     (by decide +kernel) (by decide +kernel) (by intro i _; positivity) (by decide +kernel)
+
+/-! ### the legacy `assemble_matrix_rhs` sign (an observation, not part of the property)
+
+`assemble_matrix_rhs` returns `rhs = +div @ (…) @ bc_values`, i.e. the boundary term with the sign it
+has on the LEFT-hand side.  On `CartGrid(3)` with unit flux to the right and Dirichlet inflow datum 3,
+the system `A c = rhs` is solved by `c = (-3, -3, -3)`, whereas the explicit step composed as in
+porepy's models (`faceFlux`) transports the datum with its own sign. -/
+
+def Pleg : Pb := ⟨T3, fun _ => 1, fun f => f = 0 ∨ f = 3, fun _ => false⟩
+def bvLeg : Nat → Rat := fun f => if f = 0 then 3 else 0
+
+example : (List.range 3).map (assembleRhs Pleg bvLeg) = [-3, 0, 0] := by decide +kernel
+example : ∀ k, k < 3 → sumTo 3 (fun j => entryOf (assembleTrip Pleg Pleg.T) k j * (-3)) = assembleRhs Pleg bvLeg k := by
+  decide +kernel
+-- one explicit step from c = 0 raises the inflow cell towards the datum (dt/V = 1/2): +3/2, not −3/2
+example : (List.range 3).map (step Pleg (1 / 2) (fun _ => 1) bvLeg (fun _ => 0)) = [3 / 2, 0, 0] := by
+  decide +kernel
+
+/-! ### interface coupling and mixed-dimensional step on concrete data
+
+Primary: two 1-d cells separated by a fracture point (faces 0,1 | 2,3; faces 1 and 2 are the split
+fracture faces), global cell 2 = the 0-d fracture cell; two mortar cells. -/
+
+def Tmd : Topo := [⟨0, 0, -1⟩, ⟨1, 0, 1⟩, ⟨2, 1, -1⟩, ⟨3, 1, 1⟩]
+
+def Mex : Md := ⟨⟨Tmd, fun _ => 0, fun _ => false, fun _ => true⟩, 2,
+  fun m => if m = 0 then 1 else 2, fun _ => 2, fun m => if m = 0 then 2 else -2⟩
+
+def cMd : Nat → Rat := fun j => if j = 0 then 4 else if j = 1 then 1 else -2
+
+example : WF Tmd ∧ Tmd.Nodup := by decide +kernel
+-- flux 2 from cell 0 into the fracture cell (takes the primary value 4), flux -2 on the other side,
+-- i.e. from the fracture cell into cell 1 (takes the secondary value -2)
+example : (List.range 2).map (eta Mex.cp cMd cMd) = [8, 4] := by decide +kernel
+example : (List.range 3).map (mdStep Mex (1 / 4) (fun _ => 1) (fun _ => 0) cMd) = [2, 0, 1] := by
+  decide +kernel
+
+example : sumTo 3 (fun i => 1 * mdStep Mex (1 / 4) (fun _ => 1) (fun _ => 0) cMd i) = sumTo 3 (fun i => 1 * cMd i) :=
+  md_transport_conserves Mex (by decide +kernel) 4 3 (1 / 4) (fun _ => 1) (fun _ => 0) cMd
+    (by decide +kernel) (by decide +kernel) (by intro i _; norm_num) (by decide +kernel)
+    (by decide +kernel) (by decide +kernel)
+
+example : traceVal Tmd cMd 1 = cMd 0 :=
+  traceVal_fracture_face Tmd (by decide +kernel) cMd ⟨1, 0, 1⟩ (by decide +kernel) (by decide +kernel) (by decide +kernel)
 
 end PorepyVerif.C17
